@@ -48,6 +48,7 @@ namespace verif {
     jmp_buf jb;
     bool jb_armed = false;
     bool port_fermi = false; // Level B kernel substitution while the Level-A fermi finding stands
+    long clamp_acted = 0;      // how often the in-place clamp changed an argument (reset by the caller around an event)
     bool inplace_clamp = true; // with port_fermi: reproduce the reference's in-place clamp of E < 50 eV (root-cause probes switch it off)
   };
   inline RefState & ref_state()
@@ -341,7 +342,10 @@ __complex__ double cgamma_(__complex__ double * z)
 double fermi_(double * Z, double * E)
 {
   if (verif::ref_state().port_fermi) {
-    if (*E < 50.e-6 && verif::ref_state().inplace_clamp) *E = 50.e-6; // the reference clamps its argument in place
+    if (*E < 50.e-6) {
+      verif::ref_state().clamp_acted++; // (counted with the side effect switched off too: "would have acted")
+      if (verif::ref_state().inplace_clamp) *E = 50.e-6; // the reference clamps its argument in place
+    }
     return bxdecay0::decay0_fermi(*Z, *E);
   }
   return fermiref_(Z, E);
